@@ -67,6 +67,11 @@ fn main() {
     }
 }
 
+/// Output root for evidence/ and replays/ (default /verif; scratch runs against seeded changes set VERIF_OUT).
+pub fn out_root() -> String {
+    std::env::var("VERIF_OUT").unwrap_or_else(|_| "/verif".to_string())
+}
+
 fn seed() -> i64 {
     std::env::var("VERIF_SEED")
         .ok()
@@ -124,8 +129,8 @@ fn check(id: &str, tier: Tier) -> i32 {
         }
     }
 
-    let _ = std::fs::create_dir_all("/verif/replays");
-    let _ = std::fs::create_dir_all("/verif/evidence");
+    let _ = std::fs::create_dir_all(format!("{}/replays", out_root()));
+    let _ = std::fs::create_dir_all(format!("{}/evidence", out_root()));
     let mut exit = 0;
     for (key, count, what) in &known_seen {
         println!(
@@ -136,7 +141,7 @@ fn check(id: &str, tier: Tier) -> i32 {
     let mut n = 0;
     for (key, count, v) in &new_viol {
         n += 1;
-        let path = format!("/verif/replays/{}-{}.json", id, n);
+        let path = format!("{}/replays/{}-{}.json", out_root(), id, n);
         let mut case = v.replay.clone();
         if let Some(o) = case.as_object_mut() {
             o.insert("tier".into(), json!(tier.name()));
@@ -208,7 +213,7 @@ fn check(id: &str, tier: Tier) -> i32 {
         "violations": new_viol.len(),
     });
     std::fs::write(
-        format!("/verif/evidence/{}.json", id),
+        format!("{}/evidence/{}.json", out_root(), id),
         serde_json::to_string_pretty(&ev).unwrap(),
     )
     .unwrap();
